@@ -173,6 +173,18 @@ func (r *rewriter) visit(n ast.Node) {
 			v.Body = r.rewriteStmtList(v.Body)
 		case *ast.CommClause:
 			v.Body = r.rewriteStmtList(v.Body)
+		case *ast.RangeStmt:
+			// "for path := range w.data.Paths" in the watcher: Go's randomised map iteration decides the scan order and
+			// with it how many file system operations run before a dirty path is found. Under the scheduler the keys are
+			// visited in sorted order (vsync_.SortedKeys); in passthrough mode nothing changes.
+			if sel, ok := v.X.(*ast.SelectorExpr); ok && sel.Sel.Name == "Paths" && v.Value == nil && v.Key != nil {
+				if inner, ok := sel.X.(*ast.SelectorExpr); ok && inner.Sel.Name == "data" {
+					v.Value = v.Key
+					v.Key = ast.NewIdent("_")
+					v.X = &ast.CallExpr{Fun: &ast.SelectorExpr{X: ast.NewIdent("vsync_"), Sel: ast.NewIdent("SortedKeys")}, Args: []ast.Expr{sel}}
+					r.changed, r.needV = true, true
+				}
+			}
 		case *ast.CallExpr:
 			// make(chan T) -> vsync_.Unbuf(make(chan T, 1)).(chan T)   (handled in parent rewrite below)
 			if sel, ok := v.Fun.(*ast.SelectorExpr); ok {
